@@ -328,7 +328,7 @@ def oracle(run, cases, impl, extra, pats):
         cls = classify_invalid([it for _, it in bad], pats)
         for (i, it), w, fids in zip(bad, why, cls):
             c = cases[i]
-            rep = {"case": {k: c[k] for k in ("op", "cid", "data", "allow", "interop") if k in c}, "emitted": it[1],
+            rep = {"case": {k: c[k] for k in ("op", "cid", "data", "allow", "interop", "py") if k in c}, "emitted": it[1],
                    "class": it[0], "validator": w, "meta": c.get("meta")}
             what = "%s %s strict success emits JSON the specification refuses (%s): %s" % (
                 c["op"], it[0], w.strip(), json.dumps(it[1])[:300])
@@ -372,7 +372,7 @@ def check(run):
     impl, extra = sc.run_impl_cases(cases)
     hist = {}
     for c, r in zip(cases, impl):
-        run.count({k: c[k] for k in ("op", "cid", "data", "allow", "interop")}, nontrivial=not trivial(c, r))
+        run.count({k: c[k] for k in ("op", "cid", "data", "allow", "interop", "py") if k in c}, nontrivial=not trivial(c, r))
         key = "%s/%s/%s" % (c["meta"]["origin"], c["meta"].get("ckind", "-").split(":")[0].split("|")[0], r.split(" ")[0] if not r.startswith("ERR") else r[4:])
         hist[key] = hist.get(key, 0) + 1
     run.coverage["distribution"] = dict(sorted(hist.items()))
